@@ -271,8 +271,7 @@ func watchdog(seed uint64, limit time.Duration) func() {
 				return
 			case <-t.C:
 				var ms runtime.MemStats
-				runtime.ReadMemStats(&ms)
-				if time.Since(start) > limit || ms.HeapAlloc > 6<<30 {
+				if time.Since(start) > limit {
 					buf := make([]byte, 1<<20)
 					n := runtime.Stack(buf, true)
 					fmt.Fprintf(realStderr, "WATCHDOG: seed %d exceeded its budget (wall %.0fs, heap %d MiB)\n%s\n", seed, time.Since(start).Seconds(), ms.HeapAlloc>>20, tail(string(buf[:n]), 400000))
@@ -285,11 +284,8 @@ func watchdog(seed uint64, limit time.Duration) func() {
 }
 
 func runSeed(c *Check, tier string, root, seed uint64) workerResult {
-	wl := c.WallPerSeed
-	if wl == 0 {
-		wl = 10 * time.Minute
-	}
-	defer watchdog(seed, wl)()
+	// (the wall-clock / memory watchdog lives in the parent: a real-time timer in
+	// this process would perturb the goroutine schedule of the simulation)
 	cs := c.Gen(simrt.NewRand(seed), tier)
 	o := safeExec(c, cs, false)
 	res := workerResult{Seed: seed, Outcome: o, CaseLen: len(cs)}
@@ -434,6 +430,60 @@ func spawn(bin, role, id, tier string, root uint64, extraEnv ...string) (*worker
 	return w, nil
 }
 
+// readResultWatched waits for the result of one seed; when the worker exceeds
+// the wall-clock budget or 8 GiB of resident memory it is sent SIGQUIT (the Go
+// runtime dumps all goroutine stacks to stderr) and the death is reported as
+// harness trouble.
+func (w *workerProc) readResultWatched(c *Check, seed uint64) (*workerResult, error) {
+	type rr struct {
+		r   *workerResult
+		err error
+	}
+	ch := make(chan rr, 1)
+	go func() {
+		r, err := w.readResult()
+		ch <- rr{r, err}
+	}()
+	limit := c.WallPerSeed
+	if limit == 0 {
+		limit = 10 * time.Minute
+	}
+	deadline := time.After(limit)
+	tick := time.NewTicker(time.Second)
+	defer tick.Stop()
+	for {
+		select {
+		case x := <-ch:
+			return x.r, x.err
+		case <-tick.C:
+			if rss := rssOf(w.cmd.Process.Pid); rss > 8<<30 {
+				fmt.Fprintf(w.stderr, "WATCHDOG: seed %d: worker resident memory %d MiB\n", seed, rss>>20)
+				w.cmd.Process.Signal(syscall.SIGQUIT)
+				x := <-ch
+				return nil, fmt.Errorf("watchdog: %v", x.err)
+			}
+		case <-deadline:
+			fmt.Fprintf(w.stderr, "WATCHDOG: seed %d exceeded its wall-clock budget of %s\n", seed, limit)
+			w.cmd.Process.Signal(syscall.SIGQUIT)
+			x := <-ch
+			return nil, fmt.Errorf("watchdog: %v", x.err)
+		}
+	}
+}
+
+func rssOf(pid int) uint64 {
+	b, err := os.ReadFile(fmt.Sprintf("/proc/%d/statm", pid))
+	if err != nil {
+		return 0
+	}
+	f := strings.Fields(string(b))
+	if len(f) < 2 {
+		return 0
+	}
+	pages, _ := strconv.ParseUint(f[1], 10, 64)
+	return pages * 4096
+}
+
 // readResult reads lines until a result line; anything else is product noise.
 func (w *workerProc) readResult() (*workerResult, error) {
 	for {
@@ -529,7 +579,7 @@ func runParent(c *Check, tier string, root uint64) int {
 						}
 					}
 					fmt.Fprintf(w.stdin, "%d\n", seed)
-					r, err := w.readResult()
+					r, err := w.readResultWatched(c, seed)
 					if err != nil {
 						// worker died while executing this seed
 						w.cmd.Wait()
@@ -832,6 +882,11 @@ func Entry() int {
 	if role == "selftest" {
 		return runSelftest(root)
 	}
+	if role == "seedof" {
+		n, _ := strconv.Atoi(os.Getenv("VERIF_ONE"))
+		fmt.Println(seedFor(root, n))
+		return 0
+	}
 	c := registry[id]
 	if c == nil {
 		fmt.Fprintf(os.Stderr, "unknown check %q; have:", id)
@@ -848,13 +903,11 @@ func Entry() int {
 		return 0
 	case "one": // run a single seed in-process, print the outcome (development aid)
 		seed, _ := strconv.ParseUint(os.Getenv("VERIF_ONE"), 10, 64)
-		wl := 10 * time.Minute
 		if s := os.Getenv("VERIF_WALL"); s != "" {
 			if n, err := strconv.Atoi(s); err == nil {
-				wl = time.Duration(n) * time.Second
+				defer watchdog(seed, time.Duration(n)*time.Second)()
 			}
 		}
-		defer watchdog(seed, wl)()
 		cs := c.Gen(simrt.NewRand(seed), tier)
 		o := safeExec(c, cs, true)
 		b, _ := json.MarshalIndent(o, "", " ")
@@ -946,4 +999,8 @@ func digestOne(c *Check, seed uint64, tier string) {
 		h = simrt.HashBytes(h, []byte(v.Sig))
 	}
 	fmt.Printf("@@D %016x-%016x-%d\n", h, o.TraceHash, len(o.Log))
+	if d := os.Getenv("VERIF_DUMPLOG"); d != "" {
+		os.MkdirAll(d, 0755)
+		os.WriteFile(filepath.Join(d, fmt.Sprintf("%d-%016x-%d.log", seed, h, os.Getpid())), []byte(strings.Join(o.Log, "\n")), 0644)
+	}
 }
